@@ -15,7 +15,7 @@ import (
 
 func init() {
 	Registry["C17"] = Set{
-		Explanation: "Decides structural clauses of the application lifecycle: A1 in start, the CAS Loaded->Running success edge dominates the first member spawn, a failed spawn kills every member started so far and stores Loaded before the error is returned, and the Start callback has exactly one call site, after all spawns; A2 mode table — in terminate the 'stop everything' action (swap to Stopping + shutdown of all members) is reachable only with mode Permanent, or with mode Transient on paths that passed reason != Normal and reason != Shutdown, never with Temporary (enum value sets refined along the switch edges plus must-pass of the reason tests); A3 the Terminate callback is dominated by 'member group empty' and by the swap to Loaded whose old value was tested, so it runs once per stop; A4 every path to application.start starts the spec's dependencies first (all call sites are preceded by the shared dependency step); A5 stop returns nil only from the stopped channel or when the state is already Loaded, and the stopped channel is closed only on the path that found the group empty. Added while probing: A1 a successful start stores the requested mode; A2 at each stop-all site the edge that won the swap to Stopping sends an exit to every member and records the causing reason before the common tail; A5 identifies the state word by its atomic load (a select index is not a state). A5 also: stop records its reason before it takes the members down; A6 nothing a Range callback over the member group calls synchronously locks that group again (lock re-entrancy through the static call graph); A1/A2 recognise a complete member fan-out in both shapes (Range callback that never stops, or a loop over the collected members left only by exhaustion). A8 the state of one run that terminate() reads (mode, the stopped channel, the reason) is written by start() before the first member is spawned, and a channel terminate() closes is created by start(). A9 a member's termination is ordered against the start: terminate() consults a guard (phase flag under a lock, or a mutex) that start() engages before the first spawn, before it touches the member group; while the start is in progress it only records the termination; every path of start() after a spawn ends the phase; the recorded terminations are replayed to terminate() after the flag is reset, in a loop left only by exhaustion. A10 every call of application.start is given the specification's mode, a mode constant, or a caller's mode that is replaced by the specification's when zero — never the run-scoped field that stop() overwrites.",
+		Explanation: "Decides structural clauses of the application lifecycle: A1 in start, the CAS Loaded->Running success edge dominates the first member spawn, a failed spawn kills every member started so far and stores Loaded before the error is returned, and the Start callback has exactly one call site, after all spawns; A2 mode table — in terminate the 'stop everything' action (swap to Stopping + shutdown of all members) is reachable only with mode Permanent, or with mode Transient on paths that passed reason != Normal and reason != Shutdown, never with Temporary (enum value sets refined along the switch edges plus must-pass of the reason tests); A3 the Terminate callback is dominated by 'member group empty' and by the swap to Loaded whose old value was tested, so it runs once per stop; A4 every path to application.start starts the spec's dependencies first (all call sites are preceded by the shared dependency step); A5 stop returns nil only from the stopped channel or when the state is already Loaded, and the stopped channel is closed only on the path that found the group empty. Added while probing: A1 a successful start stores the requested mode; A2 at each stop-all site the edge that won the swap to Stopping sends an exit to every member and records the causing reason before the common tail; A5 identifies the state word by its atomic load (a select index is not a state). A5 also: stop records its reason before it takes the members down; A6 nothing a Range callback over the member group calls synchronously locks that group again (lock re-entrancy through the static call graph); A1/A2 recognise a complete member fan-out in both shapes (Range callback that never stops, or a loop over the collected members left only by exhaustion). A8 the state of one run that terminate() reads (mode, the stopped channel, the reason) is written by start() before the first member is spawned, and a channel terminate() closes is created by start(). A9 a member's termination is ordered against the start: terminate() consults a guard (phase flag under a lock, or a mutex) that start() engages before the first spawn, before it touches the member group; while the start is in progress it only records the termination; every path of start() after a spawn ends the phase; the recorded terminations are replayed to terminate() after the flag is reset, in a loop left only by exhaustion. A10 every call of application.start is given the specification's mode, a mode constant, or a caller's mode that is replaced by the specification's when zero — never the run-scoped field that stop() overwrites. A11 on every path from a member spawn to a successful return start() looks at the state again, and on the Stopping edge sends an exit to every member (a stop request made during the start reaches the members started after it). A11 on every path from a member spawn to a successful return start() looks at the state again, and on the Stopping edge sends an exit to every member (a stop request made during the start reaches the members started after it).",
 		NotDecided: []string{
 			"interleavings of start/stop/member death (e.g. a member dying before it is stored in the group)",
 			"order of member starts relative to dependency graphs with cycles",
@@ -63,6 +63,7 @@ func runC17(p *load.Program, r *core.Report) {
 	c17RunState(p, r, appT, start, term)
 	c17StartingPhase(p, r, appT, start, term)
 	c17StartMode(p, r, appT, start)
+	c17StopDuringStart(p, r, appT, start, st["ApplicationStateStopping"])
 
 	// ---- A1
 	rule := "C17.A1 start"
